@@ -385,6 +385,10 @@ func flat(xs []string) []string {
 }
 
 func main() {
+	if len(os.Args) > 1 && os.Args[1] == "-paths" {
+		pathsMain() // paths.go: Handler.commit / close, ControlFile.Close as trees with their control flow → Gen/CommitPaths.lean
+		return
+	}
 	if len(os.Args) > 1 && os.Args[1] == "-retry" {
 		retryMain() // retry.go: the waiting side (typed IRs of Model/Retry.lean) → Gen/RetryLoop.lean
 		return
